@@ -282,6 +282,10 @@ def check(ctx):
                    not bad_ret, detail=str(bad_ret), stmt=f"outcome kernel_state {bad_ret}")
     ctx.require_min("standard transitions", n_std, 6)
 
+    # ---- shared mechanisms: the neighbour's rules run as obligations of this property
+    ctx.include("C07", "C11.R5", only=['C07.R3'])
+    ctx.rule("R5", "shared mechanisms, run as obligations of this property: the within-epoch clock the recurrence reads advances by one per transition across chunks (C07.R3).")
+
 
 def _same_args(t) -> bool:
     want = {"prng_key": n("prng_key"), "kernel_state": KS, "model_state": n("model_state"),
